@@ -55,7 +55,7 @@ def blacklistCallName (e : Env) (c : CallView) : M (Option Str) :=
         let kws ← c.callKeywords
         match CallView.lookupKw kws "name" with
         | some v => pure v.str?
-        | none => throw .keyError
+        | none => pure none                 -- `call_keywords.get("name")`: `None` never matches
     else pure (some q)
 
 def blacklistRun (t : BlTables) (e : Env) : M (Option PRaw) :=
